@@ -1,7 +1,7 @@
 (* C10 - Validation is invariant under Unicode-equivalent spellings. *)
 From B39 Require Import Proofs.Calls.
 From B39 Require Import Lib.Base Lib.Sha256 Lib.Nfkd Model.GenTypes Model.Model Spec.Bip39Spec.
-From B39 Require Import Proofs.Tables Proofs.LibContract Proofs.Sound Proofs.Api.
+From B39 Require Import Lib.Utf8 Proofs.Tables Proofs.LibContract Proofs.Sound Proofs.Api Proofs.Idem Proofs.Canonical.
 
 (* any two strings with the same NFKD form, every Language value (supported or not) *)
 Theorem C10_same_nfkd : forall lib, lib_contract lib -> forall (s1 s2 : list byte) (l : Z),
@@ -21,5 +21,16 @@ Proof. exact valid_spelling_accepted. Qed.
 Theorem C10_callees : reach_ok "CheckMnemonic" = true /\ reach_ok "IsMnemonicValid" = true.
 Proof. exact calls_validator. Qed.
 
+(* NFKD is idempotent on valid UTF-8 (UAX #15 over the pinned table: the table is closed under decomposition,
+   canonical reordering is idempotent, UTF-8 encoding round-trips), so the NFKD form of a string is itself one of
+   its spellings: a string is accepted iff its NFKD form is *)
+Theorem C10_nfkd_idempotent : forall s : list byte, utf8_valid s = true -> nfkd (nfkd s) = nfkd s /\ utf8_valid (nfkd s) = true.
+Proof. exact nfkd_idem. Qed.
+Theorem C10_normalised_form : forall lib, lib_contract lib -> forall (s : list byte) (l : Z), utf8_valid s = true ->
+  (CheckMnemonicL lib (nfkd s) l = Ret None <-> CheckMnemonicL lib s l = Ret None).
+Proof. exact normalised_form_same_verdict. Qed.
+
 Print Assumptions C10_same_nfkd.
+Print Assumptions C10_nfkd_idempotent.
+Print Assumptions C10_normalised_form.
 Print Assumptions C10_valid_spellings.
